@@ -629,8 +629,8 @@ func nonNegative(v ssa.Value, inProgress map[ssa.Value]bool, depth int) bool {
 			})
 			return n > 0 && all
 		}
-		if b, ok := x.Call.Value.(*ssa.Builtin); ok {
-			switch b.Name() {
+		if mk := minMaxKind(&x.Call); mk != "" {
+			switch mk {
 			case "max":
 				for _, a := range x.Call.Args {
 					if nonNegative(a, inProgress, depth+1) {
@@ -1887,7 +1887,7 @@ func hasLayerHMax(m *Model, f *ssa.Function, seen map[*ssa.Function]bool) bool {
 				if !ok {
 					return
 				}
-				if b, ok := call.Call.Value.(*ssa.Builtin); !ok || b.Name() != "max" {
+				if minMaxKind(&call.Call) != "max" {
 					return
 				}
 				hasOld, hasNode := false, false
@@ -1976,8 +1976,7 @@ func isNodeHMaxReduction(v ssa.Value, depth int) bool {
 					return false
 				}
 			case *ssa.Call:
-				b, ok := y.Call.Value.(*ssa.Builtin)
-				if !ok || b.Name() != "max" {
+				if minMaxKind(&y.Call) != "max" {
 					return false
 				}
 				hasPhi, hasNode := false, false
